@@ -23,6 +23,39 @@ fn objs_json(sys: &Sys, h: &str) -> Value {
     store.get::<Value>(None, &key).unwrap().unwrap_or(json!({"classes": {}}))
 }
 
+/// Moves the stored next-update time of the chosen key sets of a CA one hour into the past (the signed objects
+/// themselves are untouched): the way to bring a set inside its re-issue margin without moving the clock.
+/// `which`: "current_set" | "staging_set" | "old_set" | "all". Returns the number of sets aged.
+fn age_sets(sys: &Sys, h: &str, which: &str) -> u64 {
+    let store = sys.krill.storage().open(CA_OBJECTS_NS).unwrap();
+    let key = Ident::boxed_from_string(format!("{h}.json")).unwrap();
+    let Some(mut v) = store.get::<Value>(None, &key).unwrap() else { return 0 };
+    let past = (chrono::Utc::now() - chrono::Duration::hours(1)).to_rfc3339_opts(chrono::SecondsFormat::Secs, true);
+    let mut n = 0;
+    if let Some(Value::Object(classes)) = v.get_mut("classes") {
+        for rco in classes.values_mut() {
+            for set in ["current_set", "staging_set", "old_set"] {
+                if (which == "all" || which == set) && rco["keys"].get(set).is_some() {
+                    rco["keys"][set]["revision"]["next_update"] = json!(past);
+                    n += 1;
+                }
+            }
+        }
+    }
+    if n > 0 { store.store(None, &key, &v).unwrap(); }
+    n
+}
+
+/// One maintenance run (not forced) after ageing key sets of one CA; observed like any other operation.
+fn aged_republish(sys: &Sys, it: &mut Interner, ca: &str, which: &str, scripted: bool, hist: u64, out: &Mutex<Out>) {
+    let aged = age_sets(sys, ca, which);
+    let before = snapshot(sys);
+    let _ = sys.republish(false);
+    let after = snapshot(sys);
+    { let mut o = out.lock().unwrap(); *o.op_hist.entry(format!("aged_republish:{which}:{}", if aged > 0 { "aged" } else { "none" })).or_default() += 1; }
+    emit_cases(sys, it, &before, &after, &json!({"op": "aged_republish", "ca": ca, "which": which, "aged_sets": aged, "scripted": scripted}), Some(false), hist, out);
+}
+
 fn stored_command(sys: &Sys, h: &str, version: u64) -> Option<Value> {
     let store = sys.krill.storage().open(CASERVER_NS).unwrap();
     let scope = Ident::boxed_from_string(h.to_string()).unwrap();
@@ -121,8 +154,8 @@ struct Out { w: CaseWriter, jsonl: std::fs::File, op_hist: BTreeMap<String, u64>
 #[allow(clippy::too_many_arguments)]
 fn emit_cases(sys: &Sys, it: &mut Interner, before: &Snapshot, after: &Snapshot, op_desc: &Value, republish: Option<bool>, hist: u64, out: &Mutex<Out>) {
     let now = chrono::Utc::now().timestamp();
-    // (ROA, ASPA) re-issue margins in weeks as configured for this history
-    let weeks: (i64, i64) = if hist % 3 == 2 { (4, 4) } else { (4, 4) };
+    // (ROA, ASPA, router certificate) re-issue margins in weeks as configured for this history (see run_history)
+    let weeks: (i64, i64, i64) = if hist % 3 == 2 { (4, 3, 2) } else { (4, 4, 4) };
     // C03: a revocation request that the parent answered positively (the child stored KeyRollFinish) must
     // have removed the certificate of the old key at the parent.
     for h in CAS {
@@ -174,7 +207,13 @@ fn emit_cases(sys: &Sys, it: &mut Interner, before: &Snapshot, after: &Snapshot,
         }
         if let Some(force) = republish { cmds.push(format!("mkCmd [] [] (Some {force})")); cmd_types.push(format!("republish:{force}")); }
         if cmds.is_empty() && !is_renew { continue }
-        let renew_term = if is_renew { format!("[(KRoa, {}%Z); (KAspa, {}%Z)]", now + weeks.0 * 604800, now + weeks.1 * 604800) } else { "[]".to_string() };
+        // per kind: the margin the history was configured with, and the threshold the implementation's own function returns
+        let renew_term = if is_renew {
+            let t = &sys.krill.config().issuance_timing;
+            format!("[(KRoa, {}%Z, {}%Z); (KAspa, {}%Z, {}%Z); (KBgpsec, {}%Z, {}%Z)]",
+                weeks.0 * 604800, t.new_roa_issuance_threshold().timestamp(), weeks.1 * 604800, t.new_aspa_issuance_threshold().timestamp(),
+                weeks.2 * 604800, t.new_bgpsec_issuance_threshold().timestamp())
+        } else { "[]".to_string() };
         // names of the certificates of all child keys that are known in the pre-state (for removals)
         for rc in pre["resources"].as_object().map(|o| o.values().collect::<Vec<_>>()).unwrap_or_default() {
             for sect in ["issued", "suspended"] {
@@ -216,7 +255,7 @@ fn run_history(args: &Args, hist: u64, seed: u64, n_ops: u64, out: &Mutex<Out>) 
     if hist % 3 == 2 {
         // the smallest lifetimes the configuration accepts (the margin must stay below the lifetime, so without
         // moving the clock no object is ever inside its margin: renewal runs must renew nothing)
-        opts.extra_toml = "timing_roa_valid_weeks = 5\ntiming_roa_reissue_weeks_before = 4\ntiming_aspa_valid_weeks = 5\ntiming_aspa_reissue_weeks_before = 4".into();
+        opts.extra_toml = "timing_roa_valid_weeks = 5\ntiming_roa_reissue_weeks_before = 4\ntiming_aspa_valid_weeks = 5\ntiming_aspa_reissue_weeks_before = 3\ntiming_bgpsec_valid_weeks = 5\ntiming_bgpsec_reissue_weeks_before = 2".into();
     }
     let sys = Sys::open(opts);
     let mut it = Interner::default();
@@ -237,6 +276,8 @@ fn run_history(args: &Args, hist: u64, seed: u64, n_ops: u64, out: &Mutex<Out>) 
             ("sync_parent", Box::new(|s| s.sync_parent("d", "a").map(|_| ()).map_err(|e| e.to_string()))),
             ("sync_parent", Box::new(|s| s.sync_parent("d", "a").map(|_| ()).map_err(|e| e.to_string()))),
         ];
+        // the staging key's manifest and CRL come within the margin before the current key's do
+        steps.push(("aged:staging_set", Box::new(|_| Ok(()))));
         if hist % 4 == 2 {
             // the parent changes the entitlement while the new key is staged: both keys must get their own
             // re-issued certificate (two CertificateReceived events in one sync)
@@ -245,6 +286,8 @@ fn run_history(args: &Args, hist: u64, seed: u64, n_ops: u64, out: &Mutex<Out>) 
             steps.push(("sync_parent", Box::new(|s| s.sync_parent("d", "a").map(|_| ()).map_err(|e| e.to_string()))));
         }
         steps.push(("keyroll_activate", Box::new(|s| s.keyroll_activate("d").map_err(|e| e.to_string()))));
+        // ... and so does the old key's after activation
+        steps.push(("aged:old_set", Box::new(|_| Ok(()))));
         if hist % 4 == 2 {
             // ... and shrinks it back while the old key awaits revocation
             steps.push(("entitlement_shrink_while_old", Box::new(|s| s.update_child_resources("a", "d", atoms_to_resources(0x30)).map_err(|e| e.to_string()))));
@@ -255,6 +298,7 @@ fn run_history(args: &Args, hist: u64, seed: u64, n_ops: u64, out: &Mutex<Out>) 
             steps.push(("sync_parent", Box::new(|s| s.sync_parent("d", "a").map(|_| ()).map_err(|e| e.to_string()))));
         }
         for (name, step) in steps {
+            if let Some(which) = name.strip_prefix("aged:") { aged_republish(&sys, &mut it, "d", which, true, hist, out); continue }
             let before = snapshot(&sys);
             let _ = step(&sys);
             let after = snapshot(&sys);
@@ -277,6 +321,12 @@ fn run_history(args: &Args, hist: u64, seed: u64, n_ops: u64, out: &Mutex<Out>) 
     }
     let mut st = OpState::new();
     for _ in 0..n_ops {
+        if rng.chance(10) {
+            let ca = *rng.pick(&CAS);
+            let which = *rng.pick(&["current_set", "staging_set", "old_set", "all"]);
+            aged_republish(&sys, &mut it, ca, which, false, hist, out);
+            continue;
+        }
         let before = snapshot(&sys);
         let tags = |ca: &str| -> Vec<String> { before.ca[ca].as_ref().and_then(|c| c["resources"].as_object().map(|m| m.values().map(keystate_tag).collect())).unwrap_or_default() };
         let (desc, res, republish) = random_op(&sys, &mut rng, &mut st, &tags);
